@@ -30,7 +30,7 @@ Record parse_error := { pe_doc : bool; pe_range : range; pe_msg : list N }.
 Definition code_of_kind (doc : bool) : code := if doc then C_DocSyntaxError else C_SyntaxError.
 
 Definition emit_of_error (pe : parse_error) : emit :=
-  {| e_code := code_of_kind (pe_doc pe); e_range := pe_range pe; e_msg := pe_msg pe |}.
+  {| e_code := code_of_kind (pe_doc pe); e_range := pe_range pe; e_msg := pe_msg pe; e_data := None |}.
 
 (** [SyntaxErrorChecker]: the parse errors of the file in order, then whatever the token-level checks
     (integer / float / string escapes / [...]) report *)
